@@ -445,6 +445,31 @@ def reader_bytes(rng, allow_nul=True):
     return b"".join(parts)
 
 
+def include_case(rng, tag):
+    """(top-level bytes, {file name: content bytes}): include directives forming a DAG (file k includes only files > k), some
+    naming files that do not exist; contents are reader byte strings, some without final newline / ending in a comment"""
+    nfiles = rng.randint(1, 4)
+    names = [("i%s_%d" % (tag, k)).encode() for k in range(nfiles)]
+    if rng.random() < 0.3:
+        names[-1] = ("i%s x%d" % (tag, nfiles)).encode()          # a blank inside the name
+    def body(k):
+        parts = []
+        for _ in range(rng.randint(0, 5)):
+            r = rng.random()
+            if r < 0.45 and k + 1 < nfiles + 1:
+                cand = names[k + 1:] if k >= 0 else names
+                target = rng.choice(cand) if cand and rng.random() < 0.85 else b"nofile_" + str(rng.randint(0, 9)).encode()
+                kw = rng.choice([b"INCLUDE$", b"include$", b"Include_File", b"  include_file", b"INCLUDE$x", b"\tinclude$"])
+                sep = rng.choice([b" ", b"  ", b"\t"])
+                tail = rng.choice([b"\n", b"\n", b" \n", b"\r\n", b" # c\n", b";END\n", b"", b"\\\n"])
+                parts.append(kw + sep + target + tail)
+            else:
+                parts.append(reader_bytes(rng, allow_nul=False)[:60] + rng.choice([b"\n", b"\n", b"", b";"]))
+        return b"".join(parts)
+    files = {names[k]: body(k) for k in range(nfiles)}
+    return body(-1), files
+
+
 # ------------------------------------------------------------------------------------------------ wrapper op sequences
 ACC_LINES = ["SOLUTION 1", " pH 7", "END", "", " Na 1", "SOLUTION 2; pH 6", "END\nSOLUTION 3", "# c", "\\", "x\r", "TITLE a", "é",
              "KNOBS", " -iterations 120", "SOLUTIN 1", "USE solution 9", "SELECTED_OUTPUT 1", " -pH true"]
